@@ -103,6 +103,9 @@ func (e *EventEmitter) handleSubscriber(ctx context.Context, sub event.Subscript
 	cevent := make(chan Event, 16)
 	condProcess := sync.NewCond(&sync.Mutex{})
 	queue := list.New()
+	// sending is true while the event taken from the front of the queue is being
+	// delivered; a newer event must not overtake it through the fast path below.
+	sending := false
 	wg := sync.WaitGroup{}
 
 	wg.Add(1)
@@ -124,7 +127,7 @@ func (e *EventEmitter) handleSubscriber(ctx context.Context, sub event.Subscript
 			}
 
 			condProcess.L.Lock()
-			if queue.Len() == 0 {
+			if queue.Len() == 0 && !sending {
 				// try to push event to the queue
 				select {
 				case cevent <- e:
@@ -153,6 +156,7 @@ func (e *EventEmitter) handleSubscriber(ctx context.Context, sub event.Subscript
 			}
 
 			e := queue.Remove(queue.Front())
+			sending = true
 
 			// Unlock cond mutex while sending the event
 			condProcess.L.Unlock()
@@ -163,6 +167,7 @@ func (e *EventEmitter) handleSubscriber(ctx context.Context, sub event.Subscript
 			}
 
 			condProcess.L.Lock()
+			sending = false
 		}
 		condProcess.L.Unlock()
 
